@@ -46,9 +46,11 @@ def tree_stream(ctx):
 
 def match_finding(ctx, cls, cfg, tree):
     for f in core.load_findings():
-        if f.get("property") != ctx.prop:
+        if f.get("property") != ctx.prop or f.get("status") != "known":
             continue
         pat = f.get("pattern", {})
+        if pat.get("trigger"):
+            continue               # findings with a trigger are attributed by the part that knows the trigger
         if cls in pat.get("classes", []):
             if pat.get("merge_form") and not _has_form(tree, pat["merge_form"]):
                 continue
